@@ -469,6 +469,13 @@ def _rows_tuple(fi, name):
 
 def sql_sites(prog, mod_name="aw_datastore.storages.sqlite"):
     """Every execute/executemany call in the module with its parsed statement and bindings."""
+    cache = prog.__dict__.setdefault("_sql_sites", {})
+    if mod_name not in cache:
+        cache[mod_name] = _sql_sites(prog, mod_name)
+    return cache[mod_name]
+
+
+def _sql_sites(prog, mod_name):
     mi = prog.module(mod_name)
     sites = []
     for fi in prog.funcs.values():
@@ -571,6 +578,13 @@ def _chain_root(call):
 
 def peewee_chains(prog, mod_name="aw_datastore.storages.peewee"):
     """All query-builder chains rooted at EventModel / BucketModel in the module (any function)."""
+    cache = prog.__dict__.setdefault("_pw_chains", {})
+    if mod_name not in cache:
+        cache[mod_name] = _peewee_chains(prog, mod_name)
+    return cache[mod_name]
+
+
+def _peewee_chains(prog, mod_name):
     mi = prog.module(mod_name)
     chains = []
     for fi in prog.funcs.values():
